@@ -173,6 +173,28 @@ def ovf(op, a, b, bits, signed):
     return (w, True)
 
 
+def divrem(op, a, b, bits, signed):
+    if b == 0:
+        raise RustPanic('attempt to divide by zero' if op == 'Div' else 'attempt to calculate the remainder with a divisor of zero')
+    q = abs(a) // abs(b)
+    if (a < 0) != (b < 0):
+        q = -q
+    r = a - q * b
+    v = q if op == 'Div' else r
+    return to_signed(v, bits) if signed else v & ((1 << bits) - 1)
+
+
+def shift(op, a, b, bits, signed):
+    b &= bits - 1
+    v = (a << b) if op == 'Shl' else (a >> b)
+    return to_signed(v, bits) if signed else v & ((1 << bits) - 1)
+
+
+def cmp3(a, b):
+    # core::cmp::Ordering { Less = -1, Equal = 0, Greater = 1 } (repr i8)
+    return ((-1) & 0xff,) if a < b else ((1,) if a > b else (0,))
+
+
 def wrap(op, a, b, bits, signed):
     return ovf(op, a, b, bits, signed)[0]
 
@@ -215,9 +237,16 @@ class Context:
     """Per-execution context: strategy object, decision oracle."""
     strategy = None
     oracle = None        # object with decide(atom) -> bool ; atoms are hashable tuples
+    state_hook = None    # callable(old JobState value, new JobState value) or None: write barrier on NodeInfo.state
 
 
 CTX = Context()
+
+
+def state_write(old, new):
+    h = CTX.state_hook
+    if h is not None:
+        h(old, new)
 
 
 def decide(atom):
